@@ -136,14 +136,14 @@ impl<Effect, Event> CommandContext<Effect, Event> {
 //@extract id=CommandContext::request_from_shell file=crux_core/src/command/context.rs within="impl<Effect, Event> CommandContext<Effect, Event>" item="fn request_from_shell" props=C02+C06
 //@expect pub fn request_from_shell<Op>(&self, operation: Op) -> ShellRequest<Op::Output> where Op: Operation, Effect: From<Request<Op>> + Send + 'static,
 //@sig pub fn request_from_shell<Op>(&self, operation: Op) -> (r: ShellRequest<Op::Output>) where Op: Operation, Effect: From<Request<Op>>,
-//@rule X1.closure-contract 1 s#move \|output\| \{#move |output: Op::Output| -> (res: ())\n            ensures true, // [C02+C06/one-shot-continuation/offers-the-value-to-its-own-channel-and-never-panics-on-a-closed-one]\n        {#
+//@rule X1.closure-contract 1 closure#Request::resolves_once\(operation,\s*#|$x: Op::Output| -> (res: ())\n            ensures true, // [C02+C06/one-shot-continuation/offers-the-value-to-its-own-channel-and-never-panics-on-a-closed-one]\n#
 //@rule X15.box-erasure * s#Box::new\(send_request\)#send_request#
 //@end
 
 //@extract id=CommandContext::stream_from_shell file=crux_core/src/command/context.rs within="impl<Effect, Event> CommandContext<Effect, Event>" item="fn stream_from_shell" props=C02+C06
 //@expect pub fn stream_from_shell<Op>(&self, operation: Op) -> ShellStream<Op::Output> where Op: Operation, Effect: From<Request<Op>> + Send + 'static,
 //@sig pub fn stream_from_shell<Op>(&self, operation: Op) -> (r: ShellStream<Op::Output>) where Op: Operation, Effect: From<Request<Op>>,
-//@rule X1.closure-contract 1 s#move \|output\| \{#move |output: Op::Output| -> (res: Result<(), ()>)\n            ensures res is Ok <==> mpsc::accepts(output_sender, output), // [C02+C06/stream-continuation/accepted-iff-the-requests-own-channel-accepts-so-rejected-iff-its-consumer-has-ended]\n        {#
+//@rule X1.closure-contract 1 closure#Request::resolves_many_times\(operation,\s*#|$x: Op::Output| -> (res: Result<(), ()>)\n            ensures res is Ok <==> mpsc::accepts(output_sender, $x), // [C02+C06/stream-continuation/accepted-iff-the-requests-own-channel-accepts-so-rejected-iff-its-consumer-has-ended]\n#
 //@rule X8.closure-wildcard * s/\|_\|/|_e|/
 //@end
 }
@@ -226,7 +226,8 @@ pub mod future_side {
                 *final(self) == ShellStream::Sent(old(self)->ReadyToSend_1), // [C02/ShellStream::send/keeps-its-own-receiver]
                 *final(w) == (XW { sent: old(w).sent + 1, ..*old(w) }), // [C01+C02/ShellStream::send/hands-the-request-to-the-shell-exactly-once]
 //@rule X5.mpsc 1 s/mpsc::unbounded\(\)\.1/dummy_receiver()/
-//@rule X6.world 1 s/\bsend_request\(\)/send_request.call(Tracked(w))/
+//@bind send ShellStream::ReadyToSend\((\w+),
+//@rule X6.world 1 s/\b$send\(\)/$send.call(Tracked(w))/
 //@end
 
 //@extract id=ShellStream::poll_next file=crux_core/src/command/context.rs within="impl<T: Unpin + Send> Stream for ShellStream<T>" item="fn poll_next" props=C01+C02+C07
@@ -246,7 +247,7 @@ pub mod future_side {
                 *old(self) is Sent && old(w).pending.len() == 0 && !old(w).closed ==> r is Pending && final(w).rx_waker == Some(old(cx).waker_id()), // [C02/ShellStream::poll_next/pending-only-with-the-consumers-waker-stored]
                 *old(self) is Sent && old(w).pending.len() == 0 && old(w).closed ==> r == Poll::Ready(None::<T>) && *final(w) == *old(w), // [C07/ShellStream::poll_next/a-closed-channel-ends-the-stream-and-stores-no-waker]
 //@rule X12.pin-erasure * s/pin!\((\w+)\)\.poll_next\(cx\)/\1.poll_next(Tracked(w), cx)/
-//@rule X9.assert 1 s#assert!\(matches!\(poll, Poll::Pending\)\);#assert(matches!(poll, Poll::Pending)); // [C02/ShellStream::poll_next/nothing-can-have-arrived-before-the-request-was-sent]#
+//@rule X9.assert 1 s#assert!\(matches!\((\w+), Poll::Pending\)\);#assert(matches!(\1, Poll::Pending)); // [C02/ShellStream::poll_next/nothing-can-have-arrived-before-the-request-was-sent]#
 //@rule X6.world 1 s/self\.send\(\)/self.send(Tracked(w))/
 //@end
     }
